@@ -269,6 +269,9 @@ def step (d : DState) (line : String) : IO DState := do
       printEvs evs
       out (showResU res)
       let issued := d.hist.size - 1
+      match cb with
+      | some c => out s!"#flushed {c} {issued}"
+      | none => pure ()
       let d := noteEvs { d with sys := sys' } evs
       let d := match res with
         | .ok _ => { d with flushedN := issued,
